@@ -569,6 +569,31 @@ func positions() []*position {
 			return e
 		}
 	}
+	// SelectSeries with the other aggregation (AVERAGE divides by a count looked up by sample type and unit)
+	const avg = `,"aggregation":1`
+	str("prof.selector.series.avg", formsGo, profBody("SelectSeries", func(h string) string {
+		return `{"profile_typeID":` + jsonStr(profType) + `,"label_selector":` + jsonStr(sel(`c=`+h)) + `,` + profRange() + `,"group_by":["a"],"step":15` + avg + `}`
+	}))
+	str("prof.selectseries.group_by.avg", formsJSON, profBody("SelectSeries", func(h string) string {
+		return `{"profile_typeID":` + jsonStr(profType) + `,"label_selector":` + jsonStr(`{a="b"}`) + `,` + profRange() + `,"group_by":[` + h + `,"z"],"step":15` + avg + `}`
+	}))
+	for i, part := range []string{"name", "sample_type", "sample_unit", "period_type", "period_unit"} {
+		i := i
+		p = str("prof.type_id."+part+".avg", formsJSON, profBody("SelectSeries", func(h string) string {
+			return `{"profile_typeID":` + h + `,"label_selector":` + jsonStr(`{a="b"}`) + `,` + profRange() + `,"step":15` + avg + `}`
+		}))
+		p.pre = typePart(i)
+		p.expect = func(eff string) expectation {
+			if strings.Contains(eff, ":") && i != 4 {
+				return expectation{class: "colon", free: true}
+			}
+			e := expIn([2]string{"", ""}, [2]string{"", ":nanoseconds"}, [2]string{"cpu:", ""})(eff)
+			if eff == "" {
+				e.free = true
+			}
+			return e
+		}
+	}
 	p = str("prof.selector.whole", formsJSON, profBody("SelectMergeStacktraces", func(h string) string {
 		return `{"profile_typeID":` + jsonStr(profType) + `,"label_selector":` + h + `,` + profRange() + `}`
 	}))
